@@ -321,7 +321,7 @@ Proof.
     + inversion Hs; subst. reflexivity.
     + destruct (cache_lookup k s) as [en|]; [|inversion Hs].
       destruct io; [|inversion Hs]. inversion Hs; subst.
-      unfold resume in H3. destruct (usable_key (e_key en)); inversion H3; subst; reflexivity.
+      unfold resume in H3. destruct (negb (e_client en) && usable_key (e_key en)); inversion H3; subst; reflexivity.
   - inversion H; subst. right. exists c. split; auto. rewrite Ec.
     eapply raw_path_good; eauto.
 Qed.
@@ -330,7 +330,7 @@ Qed.
 
 Theorem resume_restores : forall en s c cs,
   resume en s c = Some cs ->
-  e_key en = KAes /\
+  e_client en = false /\ e_key en = KAes /\
   n_cmd (cs_neg cs) = c /\ n_sid (cs_neg cs) = s /\
   n_authn (cs_neg cs) = e_authn en /\ n_user (cs_neg cs) = e_user en /\
   n_valid (cs_neg cs) = e_valid en /\
@@ -338,12 +338,28 @@ Theorem resume_restores : forall en s c cs,
   n_enc (cs_neg cs) = true /\ cs_enc_real cs = true /\ n_resumed (cs_neg cs) = true.
 Proof.
   intros en s c cs H. unfold resume in H.
+  destruct (e_client en) eqn:C; cbn [negb andb] in H; [discriminate|].
   destruct (e_key en) eqn:K; cbn in H; inversion H; subst; cbn; repeat split; auto.
 Qed.
 
 (* a session without a usable key is never resumed *)
 Theorem resume_needs_key : forall en s c, e_key en <> KAes -> resume en s c = None.
-Proof. intros en s c H. unfold resume. destruct (e_key en); cbn; congruence. Qed.
+Proof. intros en s c H. unfold resume. destruct (e_client en), (e_key en); cbn; congruence. Qed.
+
+(* the client-side record of a session negotiated with another server is never resumed *)
+Theorem resume_refuses_client_record : forall en s c, e_client en = true -> resume en s c = None.
+Proof. intros en s c H. unfold resume. rewrite H. reflexivity. Qed.
+
+(* whatever this process stores as a client never becomes resumable by its server side,
+   and never replaces a server-side record *)
+Theorem client_store_inert : forall k s e s' en,
+  cache_lookup (client_store k s e) s' = Some en ->
+  e_client en = true \/ cache_lookup k s' = Some en.
+Proof.
+  intros k s e s' en H. unfold client_store in H.
+  destruct (cache_lookup k s) as [e0|] eqn:L; [destruct (e_client e0) eqn:C|]; auto;
+    cbn in H; destruct (N.eqb s s'); auto; inversion H; subst; left; reflexivity.
+Qed.
 
 (* ---- reported = real, carried through the cache and the loop -------------------------------- *)
 
@@ -370,9 +386,18 @@ Proof.
   intros r [Fa Fe]. unfold entry_faithful, entry_of_full; cbn. auto.
 Qed.
 
+(* a client-side record is never resumed by the server side, so its content is irrelevant *)
+Lemma client_store_faithful : forall k s e, cache_faithful k -> cache_faithful (client_store k s e).
+Proof.
+  intros k s e F. unfold client_store.
+  assert (M : entry_faithful (mark_client e)) by (unfold entry_faithful, mark_client; cbn; discriminate).
+  destruct (cache_lookup k s) as [e0|]; [destruct (e_client e0)|]; auto; constructor; auto.
+Qed.
+
 Lemma resume_faithful : forall en s c cs, entry_faithful en -> resume en s c = Some cs -> cs_faithful cs.
 Proof.
   intros en s c cs Fa H. unfold resume in H.
+  destruct (e_client en) eqn:C; cbn [negb andb] in H; [discriminate|].
   destruct (usable_key (e_key en)); [|discriminate].
   inversion H; subst; unfold cs_faithful; cbn; split; auto.
 Qed.
@@ -440,10 +465,11 @@ Lemma run_history_in : forall evs k out,
   In out (run_history k evs) -> exists k0 cn k1, In (EConn cn) evs /\ serve_conn k0 cn = (k1, out).
 Proof.
   induction evs as [|ev r IH]; intros k out Hin; cbn in Hin; [destruct Hin|].
-  destruct ev as [cn|s|s en].
+  destruct ev as [cn|s|s en|s en].
   - destruct (serve_conn k cn) as [k' o] eqn:E. destruct Hin as [Hin|Hin].
     + subst. exists k, cn, k'. split; [left; reflexivity|auto].
     + destruct (IH _ _ Hin) as [k0 [cn0 [k1 [A B]]]]. exists k0, cn0, k1. split; [right; auto|auto].
+  - destruct (IH _ _ Hin) as [k0 [cn0 [k1 [A B]]]]. exists k0, cn0, k1. split; [right; auto|auto].
   - destruct (IH _ _ Hin) as [k0 [cn0 [k1 [A B]]]]. exists k0, cn0, k1. split; [right; auto|auto].
   - destruct (IH _ _ Hin) as [k0 [cn0 [k1 [A B]]]]. exists k0, cn0, k1. split; [right; auto|auto].
 Qed.
@@ -496,7 +522,7 @@ Lemma history_real_gen : forall evs k,
   forall i, In i (invocations (fst out)) -> i_rawpath i = false -> meets_policy_real i.
 Proof.
   induction evs as [|ev r IH]; intros k Fk Ff Fi out Hin; cbn in Hin; [destruct Hin|].
-  destruct ev as [cn|s|s en]; cbn in Ff, Fi.
+  destruct ev as [cn|s|s en|s en]; cbn in Ff, Fi.
   - apply Forall_app in Ff. destruct Ff as [Ff1 Ff2].
     destruct (serve_conn k cn) as [k' [ds e]] eqn:E.
     destruct (serve_conn_real _ _ _ _ _ Fk Ff1 E) as [Fk' G].
@@ -505,6 +531,7 @@ Proof.
     + eapply IH; eauto.
   - eapply (IH (cache_drop k s)); eauto. apply cache_drop_faithful; auto.
   - inversion Fi; subst. eapply (IH (cache_store k s en)); eauto. constructor; auto.
+  - eapply (IH (client_store k s en)); eauto. apply client_store_faithful; auto.
 Qed.
 
 Theorem history_dispatch_real : forall k evs i,
